@@ -24,68 +24,6 @@ Proof.
   - intros i. rewrite <- P. now apply store_set_exact.
 Qed.
 
-(** ---- FETCH n (after the fix: numbered from n, n < 1 is BAD) ---- *)
-Lemma filter_eq_zseq k : forall cnt lo,
-  filter (fun i => i =? k) (zseq lo cnt) = if (lo <=? k) && (k <? lo + Z.of_nat cnt) then [k] else [].
-Proof.
-  induction cnt as [|c IH]; intros lo.
-  - simpl. replace (k <? lo + 0) with (k <? lo) by (f_equal; lia).
-    destruct (lo <=? k) eqn:A, (k <? lo) eqn:B; try reflexivity.
-    apply Z.leb_le in A. apply Z.ltb_lt in B. lia.
-  - cbn [zseq filter]. rewrite IH. rewrite Nat2Z.inj_succ.
-    destruct (lo =? k) eqn:E.
-    + apply Z.eqb_eq in E. subst lo.
-      replace (k + 1 <=? k) with false by (symmetry; apply Z.leb_gt; lia).
-      replace (k <=? k) with true by (symmetry; apply Z.leb_le; lia).
-      replace (k <? k + Z.succ (Z.of_nat c)) with true by (symmetry; apply Z.ltb_lt; lia). reflexivity.
-    + apply Z.eqb_neq in E.
-      destruct (lo + 1 <=? k) eqn:A, (lo <=? k) eqn:B;
-        try apply Z.leb_le in A; try apply Z.leb_gt in A; try apply Z.leb_le in B; try apply Z.leb_gt in B; try lia.
-      * replace (k <? lo + 1 + Z.of_nat c) with (k <? lo + Z.succ (Z.of_nat c)) by (f_equal; lia). reflexivity.
-      * reflexivity.
-Qed.
-
-Lemma zfirstn_0 {A} (l : list A) : zfirstn 0 l = [].
-Proof. destruct l; reflexivity. Qed.
-
-Lemma zfirstn1_zskipn (l : list Z) : forall j, 0 <= j ->
-  zfirstn 1 (zskipn j l) = if j <? Z.of_nat (length l) then [nth (Z.to_nat j) l 0] else [].
-Proof.
-  induction l as [|x l IH]; intros j Hj.
-  - simpl. replace (j <? 0) with false by (symmetry; apply Z.ltb_ge; lia). reflexivity.
-  - cbn [zskipn length]. rewrite Nat2Z.inj_succ. destruct (j <=? 0) eqn:E.
-    + apply Z.leb_le in E. assert (j = 0) by lia. subst j. cbn [zfirstn]. change (1 <=? 0) with false. cbv iota.
-      change (1 - 1) with 0. rewrite zfirstn_0.
-      replace (0 <? Z.succ (Z.of_nat (length l))) with true by (symmetry; apply Z.ltb_lt; lia). reflexivity.
-    + apply Z.leb_gt in E. rewrite IH by lia.
-      replace (j <? Z.succ (Z.of_nat (length l))) with (j - 1 <? Z.of_nat (length l))
-        by (destruct (j - 1 <? Z.of_nat (length l)) eqn:A; symmetry; [apply Z.ltb_lt; apply Z.ltb_lt in A | apply Z.ltb_ge; apply Z.ltb_ge in A]; lia).
-      replace (Z.to_nat j) with (S (Z.to_nat (j - 1))) by lia. reflexivity.
-Qed.
-
-Theorem fetch_single_exact : forall (k : Z) (uids : list Z), 1 <= k < 4294967296 ->
-  fetch_inline (itoa k) uids = Some (expected_fetch [One (Num k)] uids).
-Proof.
-  intros k uids Hk. assert (Hi : in64 k) by (unfold in64, max_int64; lia).
-  pose proof (itoa_digits k Hi) as D.
-  assert (NC : contains_byte (itoa k) c_colon = false) by (apply digits_no_byte; [exact D | reflexivity]).
-  unfold fetch_inline. rewrite (split_byte_nosep _ _ NC). cbv iota beta.
-  assert (E1 : str_eqb (itoa k) (S_ "1:*") = false).
-  { destruct (str_eqb (itoa k) (S_ "1:*")) eqn:E; [|reflexivity]. apply str_eqb_eq in E. rewrite E in NC. discriminate. }
-  assert (E2 : str_eqb (itoa k) s_star = false).
-  { apply (print_num_star_eq (Num k)). cbn [wf_num]. apply andb_true_iff. split; [apply Z.leb_le | apply Z.ltb_lt]; lia. }
-  rewrite E1, E2. cbn [orb]. rewrite atoi_itoa by exact Hi.
-  replace (k <? 1) with false by (symmetry; apply Z.ltb_ge; lia). f_equal.
-  unfold sql_limit_offset. change (1 <? 0) with false. cbv iota. rewrite zfirstn1_zskipn by lia.
-  unfold expected_fetch, addressed, zrange.
-  rewrite (filter_ext _ (fun i => i =? k)) by (intros i; unfold denote; simpl; apply orb_false_r).
-  rewrite filter_eq_zseq.
-  replace (1 <=? k) with true by (symmetry; apply Z.leb_le; lia). cbn [andb].
-  replace (k <? 1 + Z.of_nat (Z.to_nat (Z.of_nat (length uids) - 1 + 1))) with (k - 1 <? Z.of_nat (length uids))
-    by (destruct (k - 1 <? Z.of_nat (length uids)) eqn:A; symmetry; [apply Z.ltb_lt; apply Z.ltb_lt in A | apply Z.ltb_ge; apply Z.ltb_ge in A]; lia).
-  destruct (k - 1 <? Z.of_nat (length uids)); reflexivity.
-Qed.
-
 (** the command word is never a sequence set (why the old dispatch, which handed
     the handler the word COPY as the set, answered BAD) *)
 Lemma copy_word_is_no_set total : parse_seqset_db (S_ "COPY") total = [].
@@ -106,158 +44,6 @@ Proof.
 Qed.
 
 (** ---- SEARCH <set> outside the classes ---- *)
-Lemma to_upper_digits ds : forallb is_digit ds = true -> to_upper ds = ds.
-Proof.
-  induction ds as [|c ds IH]; [reflexivity|]. simpl. intros H. apply andb_true_iff in H. destruct H as [Hc Hd].
-  rewrite IH by exact Hd. f_equal. unfold upper_c.
-  assert (K : forall c, negb (is_digit c) || negb (is_lower c) = true)
-    by (ascii_sweep (fun c => negb (is_digit c) || negb (is_lower c))).
-  specialize (K c). rewrite Hc in K. simpl in K. apply negb_true_iff in K. now rewrite K.
-Qed.
-
-Lemma digits_seqchars ds : forallb is_digit ds = true ->
-  forallb (fun c => Ascii.eqb c c_colon || Ascii.eqb c c_star || is_digit c) ds = true.
-Proof.
-  induction ds as [|c ds IH]; [reflexivity|]. simpl. intros H. apply andb_true_iff in H. destruct H as [Hc Hd].
-  rewrite Hc, IH by exact Hd. now rewrite !orb_true_r.
-Qed.
-
-Definition numv (n : Z) : Prop := 1 <= n < 4294967296.
-Lemma numv_in64 n : numv n -> in64 n. Proof. unfold numv, in64, max_int64. lia. Qed.
-
-Lemma itoa_head n : in64 n -> exists c r, itoa n = c :: r /\ is_digit c = true /\ forallb is_digit r = true.
-Proof.
-  intros H. pose proof (itoa_digits n H) as D. pose proof (itoa_nonempty n H) as N.
-  destruct (itoa n) as [|c r]; [congruence|]. simpl in D. apply andb_true_iff in D. destruct D. now exists c, r.
-Qed.
-
-Lemma search_one_num k total : numv k ->
-  search_set (itoa k) total = filter (fun i => i =? k) (zrange 1 total).
-Proof.
-  intros Hk. pose proof (numv_in64 k Hk) as Hi. pose proof (itoa_digits k Hi) as D.
-  unfold search_set. rewrite to_upper_digits by exact D.
-  destruct (itoa_head k Hi) as (c & r & E & Hc & Hr).
-  assert (IS : is_sequence_set (itoa k) = true).
-  { unfold is_sequence_set. destruct (str_eqb (itoa k) s_star); [reflexivity|].
-    rewrite digits_seqchars by exact D. rewrite E, Hc. reflexivity. }
-  rewrite IS. apply filter_ext. intros i. unfold matches_sequence_set.
-  rewrite digits_no_byte by (try reflexivity; exact D).
-  assert (NS : str_eqb (itoa k) s_star = false).
-  { rewrite E. destruct (digit_facts c Hc) as (_ & Hs & _). unfold s_star, c_star. simpl. now rewrite Hs. }
-  rewrite NS. simpl. rewrite atoi_itoa by exact Hi. apply Z.eqb_sym.
-Qed.
-
-Lemma range_string_facts x y :
-  forallb is_digit x = true -> x <> [] ->
-  (forallb is_digit y = true \/ y = s_star) ->
-  is_sequence_set (x ++ [c_colon] ++ y) = true
-  /\ to_upper (x ++ [c_colon] ++ y) = x ++ [c_colon] ++ y
-  /\ contains_byte (x ++ [c_colon] ++ y) c_colon = true
-  /\ str_eqb (x ++ [c_colon] ++ y) s_star = false
-  /\ split_byte (x ++ [c_colon] ++ y) c_colon = [x; y].
-Proof.
-  intros Dx Nx Hy.
-  assert (Cy : contains_byte y c_colon = false) by (destruct Hy as [Dy| ->]; [now apply digits_no_byte | reflexivity]).
-  assert (Uy : to_upper y = y) by (destruct Hy as [Dy| ->]; [now apply to_upper_digits | reflexivity]).
-  assert (Sy : forallb (fun c => Ascii.eqb c c_colon || Ascii.eqb c c_star || is_digit c) y = true)
-    by (destruct Hy as [Dy| ->]; [now apply digits_seqchars | reflexivity]).
-  assert (CC : contains_byte (x ++ [c_colon] ++ y) c_colon = true).
-  { rewrite !contains_byte_app. replace (contains_byte [c_colon] c_colon) with true by reflexivity.
-    now rewrite orb_true_l, orb_true_r. }
-  assert (NS : str_eqb (x ++ [c_colon] ++ y) s_star = false).
-  { destruct (str_eqb (x ++ [c_colon] ++ y) s_star) eqn:Es; [|reflexivity].
-    apply str_eqb_eq in Es. rewrite Es in CC. discriminate. }
-  repeat split; try assumption.
-  - unfold is_sequence_set. rewrite NS. rewrite !forallb_app, (digits_seqchars x Dx), Sy.
-    destruct x as [|c r]; [congruence|]. simpl in Dx. apply andb_true_iff in Dx. destruct Dx as [Hc _].
-    cbn [app]. rewrite Hc. reflexivity.
-  - rewrite !to_upper_app, (to_upper_digits x Dx), Uy. reflexivity.
-  - apply split_byte_two; [now apply digits_no_byte | exact Cy].
-Qed.
-
-Theorem search_set_exact : forall (s : seqset) (total : Z),
-  wf s = true -> in64 total -> classify_search s total = None ->
-  search_set (print s) total = addressed s total.
-Proof.
-  intros s total H Ht Hc. unfold addressed.
-  destruct s as [|it [|it2 s]]; [discriminate| |destruct it; [destruct a|destruct a, b]; discriminate].
-  unfold print. cbn [map join]. unfold wf in H. cbn [forallb] in H. rewrite andb_true_r in H.
-  destruct it as [[k|]|[a|] [b|]]; cbn [wf_item wf_num] in H; cbn [classify_search] in Hc; cbn [print_item print_num];
-    change (":"%char) with c_colon; change ["*"%char] with s_star.
-  - (* n *)
-    assert (Hk : numv k) by (apply andb_true_iff in H; destruct H as [H1 H2]; apply Z.leb_le in H1; apply Z.ltb_lt in H2; unfold numv; lia).
-    rewrite search_one_num by exact Hk. apply filter_ext. intros i. unfold denote. simpl. now rewrite orb_false_r.
-  - (* "*" *)
-    destruct (2 <=? total) eqn:E; [discriminate|]. apply Z.leb_gt in E.
-    unfold search_set. change (to_upper s_star) with s_star. change (is_sequence_set s_star) with true. cbv iota.
-    apply filter_ext_in. intros i Hi. apply in_zrange in Hi. unfold denote. simpl.
-    rewrite orb_false_r. symmetry. apply Z.eqb_eq. lia.
-  - (* a:b *)
-    apply andb_true_iff in H. destruct H as [Ha Hb].
-    assert (Hka : numv a) by (apply andb_true_iff in Ha; destruct Ha as [H1 H2]; apply Z.leb_le in H1; apply Z.ltb_lt in H2; unfold numv; lia).
-    assert (Hkb : numv b) by (apply andb_true_iff in Hb; destruct Hb as [H1 H2]; apply Z.leb_le in H1; apply Z.ltb_lt in H2; unfold numv; lia).
-    pose proof (numv_in64 a Hka) as Ia. pose proof (numv_in64 b Hkb) as Ib.
-    destruct (range_string_facts (itoa a) (itoa b) (itoa_digits a Ia) (itoa_nonempty a Ia) (or_introl (itoa_digits b Ib)))
-      as (IS & UP & CC & NS & SP).
-    unfold search_set. rewrite UP, IS. apply filter_ext_in. intros i Hi. apply in_zrange in Hi.
-    unfold matches_sequence_set. rewrite CC, NS, SP. cbn [negb andb].
-    assert (SA : str_eqb (itoa a) s_star = false) by (apply (print_num_star_eq (Num a)); exact Ha).
-    assert (SB : str_eqb (itoa b) s_star = false) by (apply (print_num_star_eq (Num b)); exact Hb).
-    rewrite SA, SB, !atoi_lossy_itoa by assumption.
-    unfold denote. simpl. rewrite orb_false_r.
-    destruct ((b <? a) && (b <=? total)) eqn:E; [discriminate|].
-    apply andb_false_iff in E. unfold numv in *.
-    destruct E as [E|E]; [apply Z.ltb_ge in E | apply Z.leb_gt in E];
-      apply eq_true_iff_eq; rewrite !andb_true_iff, !Z.leb_le; lia.
-  - (* a:* *)
-    assert (Hka : numv a) by (apply andb_true_iff in H; destruct H as [Ha _]; apply andb_true_iff in Ha; destruct Ha as [H1 H2]; apply Z.leb_le in H1; apply Z.ltb_lt in H2; unfold numv; lia).
-    pose proof (numv_in64 a Hka) as Ia.
-    destruct (range_string_facts (itoa a) s_star (itoa_digits a Ia) (itoa_nonempty a Ia) (or_intror eq_refl))
-      as (IS & UP & CC & NS & SP).
-    unfold search_set. rewrite UP, IS.
-    apply filter_ext_in. intros i Hi. apply in_zrange in Hi.
-    unfold matches_sequence_set. rewrite CC, NS, SP. cbn [negb andb].
-    assert (SA : str_eqb (itoa a) s_star = false).
-    { apply (print_num_star_eq (Num a)). apply andb_true_iff in H. tauto. }
-    rewrite SA, atoi_lossy_itoa by assumption. change (str_eqb s_star s_star) with true. cbv iota.
-    unfold denote. simpl. rewrite orb_false_r.
-    destruct ((total <? a) && (1 <=? total)) eqn:E1; [discriminate|].
-    destruct (999999 <? total) eqn:E2; [discriminate|]. apply Z.ltb_ge in E2.
-    apply andb_false_iff in E1. unfold numv in *.
-    destruct E1 as [E|E]; [apply Z.ltb_ge in E | apply Z.leb_gt in E];
-      apply eq_true_iff_eq; rewrite !andb_true_iff, !Z.leb_le; lia.
-  - (* *:b *)
-    destruct (2 <=? total) eqn:E; [discriminate|]. apply Z.leb_gt in E.
-    assert (Hb : wf_num (Num b) = true) by (apply andb_true_iff in H; tauto).
-    assert (Hkb : numv b) by (cbn [wf_num] in Hb; apply andb_true_iff in Hb; destruct Hb as [H1 H2]; apply Z.leb_le in H1; apply Z.ltb_lt in H2; unfold numv; lia).
-    pose proof (numv_in64 b Hkb) as Ib. pose proof (itoa_digits b Ib) as Db.
-    unfold search_set.
-    assert (UP : to_upper (s_star ++ [c_colon] ++ itoa b) = s_star ++ [c_colon] ++ itoa b)
-      by (rewrite !to_upper_app, (to_upper_digits _ Db); reflexivity).
-    rewrite UP.
-    assert (IS : is_sequence_set (s_star ++ [c_colon] ++ itoa b) = true).
-    { unfold is_sequence_set.
-      assert (NS0 : str_eqb (s_star ++ [c_colon] ++ itoa b) s_star = false) by reflexivity.
-      rewrite NS0. rewrite !forallb_app, (digits_seqchars _ Db). reflexivity. }
-    rewrite IS. apply filter_ext_in. intros i Hi. apply in_zrange in Hi.
-    assert (i = 1 /\ total = 1) as [-> ->] by lia.
-    unfold matches_sequence_set.
-    assert (CC : contains_byte (s_star ++ [c_colon] ++ itoa b) c_colon = true) by reflexivity.
-    assert (NS : str_eqb (s_star ++ [c_colon] ++ itoa b) s_star = false) by reflexivity.
-    rewrite CC, NS. cbn [negb andb].
-    assert (SP : split_byte (s_star ++ [c_colon] ++ itoa b) c_colon = [s_star; itoa b])
-      by (apply split_byte_two; [reflexivity | now apply digits_no_byte]).
-    rewrite SP. change (str_eqb s_star s_star) with true. cbv iota.
-    assert (SB : str_eqb (itoa b) s_star = false).
-    { apply (print_num_star_eq (Num b)). exact Hb. }
-    rewrite SB, atoi_lossy_itoa by assumption. unfold denote. simpl. rewrite orb_false_r.
-    unfold numv in Hkb. apply eq_true_iff_eq; rewrite !andb_true_iff, !Z.leb_le; lia.
-  - (* *:* *)
-    destruct (2 <=? total) eqn:E; [discriminate|]. apply Z.leb_gt in E.
-    apply filter_ext_in. intros i Hi. apply in_zrange in Hi.
-    assert (i = 1 /\ total = 1) as [-> ->] by lia. reflexivity.
-Qed.
-
 (** ---- UID SEARCH UID a:b, a <= b ---- *)
 Theorem uidsearch_set_exact : forall (s : seqset) (uids : list Z),
   wf s = true -> classify_uidsearch s = None ->
@@ -271,44 +57,13 @@ Proof.
   assert (Ia : in64 a) by (apply (wf_num_in64 (Num a) Ha 0); unfold in64, max_int64; lia).
   assert (Ib : in64 b) by (apply (wf_num_in64 (Num b) Hb 0); unfold in64, max_int64; lia).
   unfold print. cbn [map join print_item print_num].
-  destruct (range_string_facts (itoa a) (itoa b) (itoa_digits a Ia) (itoa_nonempty a Ia) (or_introl (itoa_digits b Ib)))
-    as (_ & _ & CC & _ & SP).
+  assert (CC : contains_byte (itoa a ++ [c_colon] ++ itoa b) c_colon = true).
+  { rewrite !contains_byte_app. replace (contains_byte [c_colon] c_colon) with true by reflexivity.
+    now rewrite orb_true_l, orb_true_r. }
+  assert (SP : split_byte (itoa a ++ [c_colon] ++ itoa b) c_colon = [itoa a; itoa b])
+    by (apply split_byte_two; apply digits_no_byte; try reflexivity; now apply itoa_digits).
   unfold uidsearch_set. change (":"%char) with c_colon. rewrite CC, SP, !atoi_lossy_itoa by assumption.
   unfold addressed_uids. apply filter_ext. intros u. unfold denote. simpl. rewrite orb_false_r.
   rewrite Z.min_l, Z.max_r by lia. reflexivity.
 Qed.
 
-(** class search_huge, without enumerating a million numbers *)
-Lemma search_num_star a total : numv a ->
-  search_set (itoa a ++ [c_colon] ++ s_star) total
-  = filter (fun i => (a <=? i) && (i <=? 999999)) (zrange 1 total).
-Proof.
-  intros Hka. pose proof (numv_in64 a Hka) as Ia.
-  destruct (range_string_facts (itoa a) s_star (itoa_digits a Ia) (itoa_nonempty a Ia) (or_intror eq_refl))
-    as (IS & UP & CC & NS & SP).
-  unfold search_set. rewrite UP, IS. apply filter_ext. intros i.
-  unfold matches_sequence_set. rewrite CC, NS, SP. cbn [negb andb].
-  assert (SA : str_eqb (itoa a) s_star = false).
-  { apply (print_num_star_eq (Num a)). unfold numv in Hka. cbn [wf_num].
-    apply andb_true_iff. split; [apply Z.leb_le | apply Z.ltb_lt]; lia. }
-  rewrite SA, atoi_lossy_itoa by assumption. reflexivity.
-Qed.
-
-Lemma search_huge_refuted : exists s n i,
-  wf s = true /\ classify_search s n = Some F_search_huge
-  /\ In i (addressed s n) /\ ~ In i (search_set (print s) n).
-Proof.
-  exists [Range (Num 999998) Star], 1000000, 1000000.
-  split; [reflexivity|]. split; [reflexivity|].
-  assert (G : forall n, 999999 < n ->
-            In n (addressed [Range (Num 999998) Star] n) /\ ~ In n (search_set (print [Range (Num 999998) Star]) n)).
-  { intros n Hn. split.
-    - unfold addressed. apply filter_In. split; [apply in_zrange; lia|].
-      unfold denote, denote_item, val. cbn [existsb]. rewrite orb_false_r.
-      apply andb_true_iff. split; apply Z.leb_le; lia.
-    - change (print [Range (Num 999998) Star]) with (itoa 999998 ++ [c_colon] ++ s_star).
-      rewrite search_num_star by (unfold numv; lia).
-      intros H. apply filter_In in H. destruct H as [_ H]. apply andb_true_iff in H. destruct H as [_ H].
-      apply Z.leb_le in H. lia. }
-  apply G. lia.
-Qed.
